@@ -35,6 +35,10 @@ fn make(alpha: &[u8], sc: &Scheme, how: u64, cap: (usize, usize)) -> Al {
                 tab[i][j]
             });
             let mut s = Scoring::new(sc.go, sc.ge, f);
+            // the public hint field need not describe match_fn (the banded aligner only seeds with it)
+            if how % 3 == 0 {
+                s.match_scores = Some(((how % 5) as i32, -((how % 4) as i32)));
+            }
             s.xclip_prefix = sc.clip[0];
             s.xclip_suffix = sc.clip[1];
             s.yclip_prefix = sc.clip[2];
@@ -148,7 +152,21 @@ pub fn drive(log: &mut Log) {
         }
         let mut rng = Rng::new(seed, 1, case);
         let sigma = if rng.chance(1, 3) { 2 } else { 4 };
-        let alpha: &[u8] = if sigma == 2 { b"AC" } else { acgt };
+        // a fifth of the runs use bytes that differ only in the top bit / extreme byte values
+        let twins: [u8; 4] = [0x41, 0xC1, 0x43, 0xC3];
+        let extremes: [u8; 4] = [0, 255, 128, 127];
+        let alpha: &[u8] = if sigma == 2 {
+            b"AC"
+        } else {
+            match rng.below(10) {
+                0 => {
+                    log.oblige("alphabet_high_bit_twins");
+                    &twins
+                }
+                1 => &extremes,
+                _ => acgt,
+            }
+        };
         let sc = random_scheme(&mut rng, sigma);
         let ncalls = rng.range(6, 10);
         let maxlen = if rng.chance(1, 5) { 12 } else { 7 };
